@@ -300,7 +300,9 @@ func (c *ctx) factsGenerator() {
 
 // factsSites lists every `range` over a map and every panic( call in non-test code.
 func (c *ctx) factsSites(repo string) {
-	var ranges, panics []string
+	var ranges, panics, fsWrites []string
+	fsFuncs := map[string]bool{"os.WriteFile": true, "os.Create": true, "os.OpenFile": true, "os.MkdirAll": true, "os.Mkdir": true, "os.Remove": true,
+		"os.RemoveAll": true, "os.Rename": true, "os.Chmod": true, "os.Truncate": true, "os.Symlink": true, "os.Link": true, "ioutil.WriteFile": true, "os.CreateTemp": true, "os.MkdirTemp": true}
 	var paths []string
 	for k := range c.pkgs {
 		paths = append(paths, k)
@@ -342,6 +344,9 @@ func (c *ctx) factsSites(repo string) {
 							}
 						}
 					case *ast.CallExpr:
+						if fsFuncs[exprString(p, x.Fun)] {
+							fsWrites = append(fsWrites, fmt.Sprintf("%s.%s:%s", short, fn, exprString(p, x.Fun)))
+						}
 						if id, ok := x.Fun.(*ast.Ident); ok && id.Name == "panic" {
 							if _, isBuiltin := p.TypesInfo.Uses[id].(*types.Builtin); isBuiltin {
 								msg := ""
@@ -363,6 +368,9 @@ func (c *ctx) factsSites(repo string) {
 	}
 	sort.Strings(ranges)
 	sort.Strings(panics)
+	sort.Strings(fsWrites)
+	c.emit("\n/-- every call that creates, writes, renames or removes files in non-test code: pkg.func:callee -/\n")
+	c.emit("def fsWriteSites : List String := %s\n", qlist(fsWrites))
 	c.emit("\n/-- every `range` over a map in non-test code: pkg.func#n:operand -/\n")
 	c.emit("def mapRangeSites : List String := [\n  %s]\n", strings.Join(quoteAll(ranges), ",\n  "))
 	c.emit("/-- every call of the builtin panic in non-test code: pkg.func:message -/\n")
